@@ -445,7 +445,7 @@ class PPO(RLAlgorithm):
                 ) = get_experiences_samples(minibatch_idxs, *experiences)
                 verif_hooks.record(
                     "ppo.minibatch",
-                    idxs=minibatch_idxs,
+                    idxs=np.array(minibatch_idxs),
                     batch=(
                         batch_states,
                         batch_actions,
